@@ -198,6 +198,8 @@ struct Engine
 
     // per-operation state for boundary checks
     size_t lenA_prev = 0; // kernel length of the active file at the start of the operation
+    std::string top; // private directory that holds the simulated root
+    QSharedPointer<RotatingFileSink> decoy;
     size_t written_this_op = 0; // bytes passed to write(2) on the active path in this operation
     struct OpRot
     {
@@ -330,6 +332,13 @@ struct Engine
             sink = RotatingFileSinkPtr::create(path, P.L, P.N, opts);
         }
         iosink = dynamic_cast<IODeviceSink *>(sink.data());
+        if (P.decoy && !decoy) {
+            // another rotating sink (outside the simulated directory) that every formatted record passes
+            // first, with another formatted text: nothing a sink learns about a message may outlive
+            // a change of that message
+            mkdir((top + "/decoy").c_str(), 0700);
+            decoy = RotatingFileSinkPtr::create(QString::fromStdString(top + "/decoy/d.log"), 40, 2, RotatingFileSink::Options());
+        }
     }
     bool device_open() const
     {
@@ -393,8 +402,9 @@ struct Engine
     void setup()
     {
         root = "/dev/shm/qtlv." + std::to_string((int)getpid()) + "/h";
-        std::string top = "/dev/shm/qtlv." + std::to_string((int)getpid());
+        top = "/dev/shm/qtlv." + std::to_string((int)getpid());
         mkdir(top.c_str(), 0700);
+        rm_rf(top + "/decoy");
         mkdir(root.c_str(), 0700);
         rm_rf(root);
         std::string base = P.base;
@@ -1093,6 +1103,11 @@ struct Engine
         r.day = today();
         recs.push_back(r);
         pending.push_back(r.id);
+        if (fmt && decoy) {
+            lmsg.setFormattedMessage(QStringLiteral("d"));
+            decoy->send(lmsg);
+            lmsg.setFormattedMessage(text);
+        }
         const size_t w0 = written_this_op;
         const qint64 b0 = buffered_bytes();
         if (sink)
